@@ -13,4 +13,7 @@ def obligations(tier):
     for ct in (1, 5, 0):
         for codec in ('unc', 'snappy', 'lz4'):
             o.append(shape(ct, 1, 6, 3, 1, 4, codec, ref=True, concrete=True, timeout=600))
+    # determinism: same table, same options, written twice -> byte-identical files
+    for ct, codec in ((1, 'unc'), (5, 'unc'), (2, 'snappy'), (0, 'lz4')):
+        o.append(shape(ct, 1, 2 if ct == 5 else 4, 2, 1, 0, codec, extra=['-DTWICE'] + (['-DNULLS_ONLY'] if codec != 'unc' else []), tag='/twice', ref=False, timeout=900))
     return o
